@@ -539,6 +539,10 @@ func runC06(c *Ctx) error {
 		"arguments of right and wrong types; bodyless functions and methods, extra parameters/results, methods as groups, local helpers over look-alike values, groups mixing real and look-alike "+
 		"chains) through Engine.Load under recover; single look-alike Where clauses: real ConvertFile == Lean Conv.convert, irconv's output inside the well-formedness domain (spec06.wfwhy) "+
 		"and LoadFromIR on it does not panic (the executable form of C06.source_filter_load_total); single call statements: real convertRuleExpr == Lean Comp.convertRuleG; "+
+		"(4b) group stream: whole generated files (helper definitions of every accepted and refused shape, helper chains, helpers that reach themselves through package-level namesakes or their own parameter "+
+		"(converted in a child process: a stack overflow cannot be recovered), Import() order and arguments, doc pragmas, rules with one defect of every kind the walk knows, chains with parenthesised / call / look-alike "+
+		"receivers, statements of every other kind, init functions with the real dsl.ImportRules and with look-alikes of any arity) serialised as the abstract syntax of Rg/Model/SrcGroup.lean: real irconv.ConvertFile "+
+		"== Lean Grp.convertFileM (outcome class and the whole converted file: rules, lines, Where IR, imports, doc fields, bundle imports); a panic or fatal error of the converter on valid Go is a violation; "+
 		"(5) class streams through Engine.Load + the loader model + the soundness oracle: comparisons between two variables (every operator, Line/Text/Type.Size/Value.Int) x Match/MatchComment "+
 		"alternatives binding different subsets x At(); group-local helpers over named string constants (package-level, function-local, typed, concatenated) at every string position, nested; "+
 		"type strings with interface types of every element count and kind at any depth at every type position (also in the IR stream). "+
@@ -615,6 +619,9 @@ func runC06(c *Ctx) error {
 		return err
 	}
 	if err := c06Look(c); err != nil {
+		return err
+	}
+	if err := c06Groups(c); err != nil {
 		return err
 	}
 	return c06Classes(c)
